@@ -44,6 +44,18 @@ def slot_tags(ci):
     return out
 
 
+def _allowed_of(ex, f, path):
+    """the kind universe the executor used for the kind tests on `path` inside formula f (None when there is none)"""
+    stack = [f]
+    while stack:
+        x = stack.pop()
+        tf = ex.smt.tagforms.get(x.get_id())
+        if tf is not None and tf[0] == path:
+            return (tf[2],)
+        stack.extend(x.children())
+    return None
+
+
 def _dump(state, v, depth=0, seen=None):
     """textual dump of a value through the heap (attribute values, container parts)"""
     seen = set() if seen is None else seen
@@ -109,6 +121,7 @@ def check_class(cq):
     ex = run.ex
     replaced, assigned, bad_callee = set(), set(), {}
     replaced_full = set()
+    assigned_exact = set()
     has = {c.short for c in r.classes.values() if c.resolve("replace_table") and c.resolve("replace_table")[0] == "func"}
     for o in run.outcomes:
         if o.status == "raise":
@@ -137,6 +150,8 @@ def check_class(cq):
             for k, v in (h.attrs.items() if h else ()):
                 if "new_table" in repr(v) or (isinstance(v, Obj) and "new_table" in repr(o.state.heap[v.oid].parts)):
                     assigned.add(k)
+                if "$new_table" in repr(v) or (isinstance(v, Obj) and "$new_table" in repr(o.state.heap[v.oid].parts)):
+                    assigned_exact.add(k)       # the new table itself is stored there (table-valued slot)
     # slots whose values may be objects with a replace_table of their own need the recursive call even if the
     # slot is also table-valued (FROM holds tables and sub-queries)
     need_call = {}
@@ -145,6 +160,8 @@ def check_class(cq):
         need_call[slot] = bool(tg & has)
     # path-sensitive coverage: on every returning path, a present slot is rebuilt
     uncovered = {}
+    narrow = {}
+    node_kinds = ex.tags.sub(r.cls("terms.Node"))
     for o in run.outcomes:
         if o.status != "return":
             continue
@@ -158,8 +175,28 @@ def check_class(cq):
                     if rk.startswith("self."):
                         acc.setdefault(rk.replace("[*]", "").split(".")[1], []).append(g)
                 elif ef.kind == "loop":
-                    for _bg, body in ef.body:
-                        walk(body, g, acc, True)    # element-wise guards (isinstance ...) are not required
+                    for bg, body in ef.body:
+                        walk(body, g, acc, True)
+                        # the element-wise guard of the rebuild must hold for every kind of element that is rendered
+                        for e2 in body:
+                            rpath = e2.recv.path if isinstance(e2.recv, Sym) else (
+                                o.state.heap[e2.recv.oid].path if isinstance(e2.recv, Obj) and e2.recv.oid in o.state.heap
+                                else None)
+                            if e2.kind == "call" and e2.method == "replace_table" and rpath:
+                                rk2 = recv_key(ex, e2, o.state)
+                                slot2 = rk2.replace("[*]", "").split(".")[1] if rk2.startswith("self.") else None
+                                can2 = frozenset(t for t in tags_of.get(slot2, ()) if t in has) if slot2 else frozenset()
+                                gg = bg if e2.guard is None else z3.And(bg, e2.guard)
+                                allowed2 = _allowed_of(ex, gg, rpath)
+                                if slot2 in assigned_exact or allowed2 is None:
+                                    continue        # table-valued slot (replaced by assignment) / no kind test in the guard
+                                allowed2 = allowed2[0]
+                                names2 = can2 if allowed2 is None else (can2 & allowed2)
+                                names2 = names2 & node_kinds        # operands are Nodes (class invariant)
+                                if names2 and ex.smt.feasible(o.state.pc + [ex.smt.tag_in(rpath, names2, allowed2),
+                                                                             z3.Not(gg)]):
+                                    narrow[rk2] = (f"elements of {rk2} are rebuilt only under {z3.simplify(gg)}; get_sql "
+                                                   f"renders elements of kinds {sorted(can2)[:6]}...")
         acc = {}
         walk(o.state.effects, None, acc)
         for slot in {x.replace("[*]", "").split(".")[1] for x in rs}:
@@ -194,6 +231,40 @@ def check_class(cq):
                                                    f"replace_table on it nor assigns the new table to it: the old "
                                                    f"table survives there",
                               witness={"family": "call", "oracle": "replace_slot", "args": [name, slot]}))
+    for rk2, why in sorted(narrow.items()):
+        obs.append(Obligation(PROP, f"{name}|slots/replace|{rk2.replace('self.', '', 1)}|element-guard", "slots/replace",
+                              fi.short, REFUTED, detail=f"every rendered element of {rk2} is rebuilt", reason=why,
+                              witness={"family": "call", "oracle": "replace_slot",
+                                       "args": [name, rk2.replace("self.", "", 1).split("[")[0]]}))
+    # slots/preserve: a replace_table that builds its result with the constructor (instead of the builder copy) carries
+    # every other attribute of the receiver over
+    from contracts.invariants import SLOTS as _SLOTS
+    from ..values import IteV as _IteV
+    lost = {}
+
+    def _objs(v):
+        if isinstance(v, _IteV):
+            return _objs(v.a) + _objs(v.b)
+        return [v] if isinstance(v, Obj) else []
+    rebuilt_attrs = {x.replace("[*]", "").split(".")[1] for x in rs}
+    for o in run.outcomes:
+        if o.status != "return":
+            continue
+        for ov in _objs(o.value):
+            h = o.state.heap.get(ov.oid)
+            if h is None or not h.fresh or h.parent is not None or h.cls is None or ci not in h.cls.mro and h.cls is not ci:
+                continue
+            for k in ci.mro:
+                for attr in _SLOTS.get(k.short, {}):
+                    if attr in rebuilt_attrs or attr not in h.attrs:
+                        continue
+                    v = h.attrs[attr]
+                    if not (isinstance(v, Sym) and v.path == f"self.{attr}"):
+                        lost[attr] = f"the result is built by the constructor and its {attr} is {v!r}, not the receiver's"
+    for attr, why in sorted(lost.items()):
+        obs.append(Obligation(PROP, f"{name}|slots/preserve|{attr}", "slots/preserve", fi.short, REFUTED,
+                              detail=f"{ci.name}.replace_table keeps the receiver's {attr}", reason=why,
+                              witness={"family": "call", "oracle": "replace_slot", "args": [name, attr]}))
     # components of tuple-valued list slots (SET target / value, ORDER BY term ...) are slots of their own
     import re as _re
     for full in sorted(x for x in rs if _re.search(r"\]\.\d+$", x)):
